@@ -1,6 +1,6 @@
 (* C05 -- Deadlocks are reported exactly. Full statement: Definition C05_statement (not proved: needs DPOR completeness); refuted on this tree by the listed findings.
    Statements restated in full, closed with exact, assumptions printed. *)
-Require Import LV.Base LV.VV LV.VVFacts LV.Path LV.PathSpec LV.Prog LV.Objects LV.Exec LV.Atomic LV.Ops LV.Check LV.Ref LV.Outcome LV.Witness LV.SyncFacts LV.CheckFacts.
+Require Import LV.Base LV.VV LV.VVFacts LV.Path LV.PathSpec LV.Prog LV.Objects LV.Exec LV.Atomic LV.Ops LV.Check LV.Ref LV.Outcome LV.Witness LV.SyncFacts LV.CheckFacts LV.ExecFacts LV.SyncMono.
 
 (* D5 (repaired): unparking a thread blocked in join no longer wakes it; the program finishes as R says (computed witness) *)
 Theorem C05_D5_repaired_unpark_of_joiner :
@@ -43,3 +43,61 @@ Theorem C05_try_lock_never_blocks :
        get_mutex e m = Some s -> snd (post_acquire e me m) = false <-> mx_lock s <> None.
 Proof. exact post_acquire_fails_iff. Qed.
 Print Assumptions C05_try_lock_never_blocks.
+
+(* ==== appended by tools/mkprops.py (APPEND table) ==== *)
+
+Require Import LV.Base LV.VV LV.VVFacts LV.Path LV.PathSpec LV.PathTerm LV.PathDistinct LV.PathApi LV.Prog LV.Objects LV.Exec LV.Atomic LV.Ops LV.Check LV.ExecFacts LV.SyncMono LV.DeadlockFacts.
+
+(* Run-level statements (DeadlockFacts.v) *)
+(* the deadlock panic is raised by Execution::schedule and nowhere else *)
+Theorem C05_deadlock_only_from_schedule :
+  forall (e : exec) (me : nat) (m : micro) (e2 : exec) (st : list tstate),
+       exec_micro e me m = MFail e2 (PanicDeadlock st) ->
+       exists e1 : exec, sched_call e e1 /\ fst (schedule e1) = MFail e2 (PanicDeadlock st).
+Proof. exact exec_micro_deadlock_only_from_schedule. Qed.
+Print Assumptions C05_deadlock_only_from_schedule.
+
+(* SOUND: when a run (not replaying a stored prefix) ends with the deadlock panic, every thread is Blocked or Terminated, one is Blocked, and the reported states are the thread states *)
+Theorem C05_run_deadlock_no_runnable :
+  forall (fuel : nat) (e e' : exec) (sts : list tstate),
+       run fuel e = (e', IterPanic (PanicDeadlock sts)) ->
+       is_traversed (e_path e) = true ->
+       Forall stuck_thread (e_threads e') /\
+       (exists t : thread, In t (e_threads e') /\ t_state t = Blocked) /\
+       sts = map t_state (e_threads e').
+Proof. exact run_deadlock_no_runnable. Qed.
+Print Assumptions C05_run_deadlock_no_runnable.
+
+(* the same for whole iterations *)
+Theorem C05_iteration_deadlock_exact :
+  forall (fuel : nat) (p : prog) (pa : path) (e' : exec) (sts : list tstate),
+       iteration fuel p pa = (e', IterPanic (PanicDeadlock sts)) ->
+       is_traversed pa = true ->
+       Forall stuck_thread (e_threads e') /\
+       (exists t : thread, In t (e_threads e') /\ t_state t = Blocked) /\
+       sts = map t_state (e_threads e').
+Proof. exact iteration_deadlock_exact. Qed.
+Print Assumptions C05_iteration_deadlock_exact.
+
+(* a run that finishes has terminated every thread: nothing is silently left blocked *)
+Theorem C05_run_done_all_terminated :
+  forall (fuel : nat) (e e' : exec),
+       run fuel e = (e', IterDone) ->
+       e_active e <> None ->
+       Forall (fun t : thread => t_state t = Terminated) (e_threads e') /\ e_active e' = None.
+Proof. exact run_done_all_terminated. Qed.
+Print Assumptions C05_run_done_all_terminated.
+
+(* COMPLETE per state: a scheduling call in a state where everything is Blocked/Terminated and something is Blocked never returns normally *)
+Theorem C05_blocked_forever_is_reported :
+  forall e : exec,
+       Forall stuck_thread (e_threads e) ->
+       (exists t : thread, In t (e_threads e) /\ t_state t = Blocked) ->
+       is_traversed (e_path e) = true ->
+       exists (e' : exec) (pn : panic),
+         fst (schedule e) = MFail e' pn /\
+         (pn = PanicDeadlock (map t_state (e_threads e)) /\ e_threads e' = e_threads e \/
+          (exists c : nat, pn = PanicModel c) \/ (exists x : ppanic, pn = PanicPath x)).
+Proof. exact blocked_forever_is_reported. Qed.
+Print Assumptions C05_blocked_forever_is_reported.
+
